@@ -48,6 +48,7 @@ def gen_case(rng, tier):
     prof["index_vals"] = rng.choice([0, 0, 0.2])
     prof["relaunch"] = rng.choice([0, 0, 0.25])  # the same configuration launched again, also nested in a region without a setup
     prof["partial"] = rng.choice([0, 0, 0.4])  # setups that only write some of the fields
+    prof["launch_perm"] = rng.choice([0, 0, 0.5])  # launches that name their registers in another order, or only some of them
     prof["state_loops"] = rng.choice([0, 0, 0.5])  # hand-threaded loops that carry the state, some launching the entry state first
     prof["head_launch"] = rng.choice([0, 0.5])
     prof["prethread"] = rng.choice([0, 0, 0.5])  # hand-threaded input: setups that continue the previous setup of their block
@@ -209,6 +210,13 @@ def execute(case):
     inj = decl.injectivity_problem()
     if inj:
         out.update(status="violation", oracle="register-map-injective", message=inj)
+        return out
+    # PHS: switch k of the generated hardware reads the k-th register of the switch block - the declared addresses follow the
+    # switch numbers (the decoded values are paired with the fields by position)
+    sw = {int(n.rsplit("_", 1)[1]): v.value.data for n, v in acc_op.field_items() if n.startswith("phs_switch_")}
+    if sw and any(sw[k] != sw[0] + k for k in sw):
+        k = next(k for k in sorted(sw) if sw[k] != sw[0] + k)
+        out.update(status="violation", oracle="register-map-order", message=f"phs_switch_{k} is declared at {sw[k]:#x}, switch {k} reads register {sw[0] + k:#x} (phs_switch_0 at {sw[0]:#x})")
         return out
     if has_per_channel(case["ast"]["body"]) and not (case["cfg"]["kind"] == "gemmx" and per_channel_invariant_holds(case["ast"], case["cfg"]["mnk"][1], fields)):
         out["status"] = "rejected"
